@@ -4,6 +4,7 @@
 //! (never stdout: the library prints there on its own in some modes).
 
 mod build;
+mod docdump;
 mod sexp;
 mod val;
 
@@ -101,6 +102,46 @@ fn run_case(line: &str, known_env: &mut BTreeSet<Vec<u8>>) -> (String, String) {
                     });
                 }
                 Ok(format!("TWICE\t{}", out.join("\t|\t")))
+            }
+            // outcome + the Doc (token list) + renderings: console at the listed widths (full form), monochrome at
+            // width 100 in the outcome's own form, html and markdown
+            "render" => {
+                let widths: Vec<usize> = mode[1..].iter().filter_map(|w| w.atom().ok().and_then(|a| a.parse().ok())).collect();
+                let argv2 = argv.clone();
+                let r = std::panic::catch_unwind(std::panic::AssertUnwindSafe(|| {
+                    let res = opts.run_inner(mk_args(&argv2, name));
+                    match res {
+                        Ok(v) => format!("OK\t{}", v),
+                        Err(ParseFailure::Completion(s)) => format!("COMP\t{}", to_hex(s.as_bytes())),
+                        Err(f) => {
+                            let (cls, doc, full) = match f {
+                                ParseFailure::Stdout(d, full) => ("STDOUT", d, full),
+                                ParseFailure::Stderr(d) => ("STDERR", d, true),
+                                ParseFailure::Completion(_) => unreachable!(),
+                            };
+                            let ds = docdump::doc_sexp(&doc).unwrap_or_else(|e| format!("(docerr {})", e.replace(' ', "_")));
+                            let mut ws = Vec::new();
+                            for w in &widths {
+                                let w = *w;
+                                ws.push(format!("{}:{}", w, to_hex(format!("{:w$}", doc, w = w).as_bytes())));
+                            }
+                            format!(
+                                "RENDER\t{}\t{}\t{}\t{}\t{}\t{}\t{}",
+                                cls,
+                                full as u8,
+                                ds,
+                                to_hex(doc.monochrome(full).as_bytes()),
+                                ws.join(";"),
+                                to_hex(doc.render_html(full, false).as_bytes()),
+                                to_hex(doc.render_markdown(full).as_bytes())
+                            )
+                        }
+                    }
+                }));
+                match r {
+                    Ok(s) => Ok(s),
+                    Err(p) => Ok(format!("PANIC\t{}", to_hex(panic_text(&p).as_bytes()))),
+                }
             }
             "invariant" => {
                 let r = std::panic::catch_unwind(std::panic::AssertUnwindSafe(|| opts.check_invariants(false)));
